@@ -87,8 +87,8 @@ CHECKS = {
             "Trusts the harness's decoders (written from the PostgreSQL docs, tolerant of PostgreSQL's input syntax).",
             "DESIGN.md 4/C09"),
     "C17": ("exploration",
-            "runtime monitoring: flattening reference model vs strictly parsed ErrorResponse fields (exhaustive decorator sequences + random)",
-            "All decorator sequences to depth 4 (5 in thorough) x value variants, returned from parser and statement functions in simple and extended mode; every field compared. Held-on-observed.",
+            "runtime monitoring: flattening reference model vs strictly parsed ErrorResponse fields (exhaustive decorator sequences + random); eight connections reporting at once under the Go race detector",
+            "All decorator sequences to depth 4 (5 in thorough) x value variants, returned from parser and statement functions in simple and extended mode; every field compared; groups of eight connections report errors of one severity with their own codes at the same moment (race-detector build). Held-on-observed.",
             "Trusts the 40-line flattening model (hs.ErrSpec.Expect) and the strict parser.",
             "DESIGN.md 4/C17"),
     "C01": ("exploration",
